@@ -9,6 +9,7 @@
 //                       unchanged; for the fd entry points the CALLER's descriptor is still open, at the same offset,
 //                       readable, and a second scan on it gives the same trace. Then missing file / closed descriptor.
 //                       output: <id> E <script>=<trace>;R=<ok|what broke>|...(8)^<script>=...^N=<4 result codes>;msgs=0;R=ok
+//   [st=<seconds>] with masks: every iterator call that is not answered not-ready takes that many (virtual) seconds
 //   masks=<input>:<N>[:<w>[:<p>]]  (w: input holding the same bytes as ONE block; its yr_rules_scan_mem trace is appended as !W=...;
 //                       p: input with OTHER data: after every interrupted run it is scanned with the same scanner and the same iterator
 //                       object (last_error not reset); !P=<1|0 per mask> says whether that scan equals yr_rules_scan_mem of p)
@@ -102,6 +103,9 @@ static void do_entry_points(const char* id, YR_RULES* rules, INPUT* in, int flag
       {
         if (yr_scanner_create(rules, &sc) != ERROR_SUCCESS) DIE("scanner create");
         yr_scanner_set_flags(sc, flags); yr_scanner_set_timeout(sc, timeout); yr_scanner_set_callback(sc, vf_scan_cb, &r.t);
+        // the scanner OBJECT is (virtually) 2000 s old when it is used: the scan's deadline counts from the start of the scan,
+        // not from yr_scanner_create — the one-shot rules-level calls create theirs just before scanning
+        sc->stopwatch.ts_start.tv_sec -= 2000;
       }
       if (k == 2 || k == 5)
       {
@@ -222,7 +226,7 @@ static void do_entry_points(const char* id, YR_RULES* rules, INPUT* in, int flag
 }
 
 #define MAXCLASS 36
-static void do_masks(const char* id, YR_RULES* rules, INPUT* in, int flags, int timeout, int N, INPUT* whole, INPUT* probe)
+static void do_masks(const char* id, YR_RULES* rules, INPUT* in, int flags, int timeout, int N, INPUT* whole, INPUT* probe, int stall_each)
 {
   static RUN r;
   static char* cls[MAXCLASS];
@@ -249,7 +253,7 @@ static void do_masks(const char* id, YR_RULES* rules, INPUT* in, int flags, int 
   for (uint64_t m = 0; m < total; m++)
   {
     it_init(&r.it, &r.ic, in, NULL, sc, 0);
-    r.ic.use_mask = 1; r.ic.mask = m;
+    r.ic.use_mask = 1; r.ic.mask = m; r.ic.stall_each = stall_each;
     cb_script(&r.t, "-");
     tr_reset(&r.t);
     int rc, n = 0, ev = 0;
@@ -335,7 +339,8 @@ int main()
     {
       int i = 0, N = 0, wi = -1, pi = -1;
       if (sscanf(mk, "%d:%d:%d:%d", &i, &N, &wi, &pi) < 2 || N > 16) DIE("bad masks");
-      do_masks(toks[0], rules, &ins[i], flags, timeout, N, wi >= 0 ? &ins[wi] : NULL, pi >= 0 ? &ins[pi] : NULL);
+      do_masks(toks[0], rules, &ins[i], flags, timeout, N, wi >= 0 ? &ins[wi] : NULL, pi >= 0 ? &ins[pi] : NULL,
+               field(toks, n, "st") ? atoi(field(toks, n, "st")) : 0);
     }
     else printf("%s BADTASK\n", toks[0]);
     free_inputs(ins, nin);
